@@ -25,6 +25,7 @@ Next ==
                          [] r.e = "XENUM" -> PD!Check_XENUM(r)
                          [] r.e = "GOLD" -> PD!Check_GOLD(r)
                          [] r.e = "DINIT" -> PD!Check_DINIT(r)
+                         [] r.e = "GEN" -> PD!Check_GEN(r)
                          [] OTHER -> {"H_unknown_record_kind"}
             IN IF bad = {} THEN TRUE ELSE PrintT(<<"REJECT", l, r.seq, r.e, bad>>)
   /\ l' = l + 1
